@@ -20,8 +20,8 @@ CONSTANTS Props     \* {"C14"} or {"C13"} or both
 
 Tr == ndJsonDeserialize(IOEnv.TRACE)
 
-VARIABLES l, nbad, ndrift, nchk
-tvars == <<l, nbad, ndrift, nchk>>
+VARIABLES l, nbad, ndrift, nchk, tainted
+tvars == <<l, nbad, ndrift, nchk, tainted>>
 
 Want(id) == id \in Props
 
@@ -81,11 +81,11 @@ View(x) ==
 (* ----------------------------- contract -------------------------------- *)
 SlotOps == {"set_shared", "set_persistent", "set_name", "h_copy", "h_move", "h_drop", "write"}
 MeshOps == CreateOps \cup KernelOps \cup {"property_exists", "set_shared", "set_persistent", "clear_props",
-             "clear_all_props", "clear", "set_vertex", "persist_pos", "mesh_assign", "mesh_destroy"}
+             "clear_all_props", "clear", "set_vertex", "persist_pos", "pos_handle", "mesh_assign", "mesh_destroy"}
 InContract(p, c) ==
   /\ (c.op \in SlotOps => c.b \in DOMAIN p.slot /\ p.slot[c.b] # 0)
   /\ (c.op \in MeshOps => c.a \in DOMAIN p.mesh /\ p.mesh[c.a].alive)
-  /\ (c.op \in CreateOps => c.b \in DOMAIN p.slot)
+  /\ (c.op \in CreateOps \cup {"pos_handle"} => c.b \in DOMAIN p.slot)
   /\ (c.op \in {"set_shared", "set_persistent"} => p.sto[p.slot[c.b]].trk = c.a)
   /\ (c.op = "write" => c.l[1] < Len(p.sto[p.slot[c.b]].vals))
   /\ (c.op = "set_vertex" => c.l[1] < p.mesh[c.a].n["V"])
@@ -115,25 +115,32 @@ LineCheck(i) ==
         ELSE IF Want("C13") /\ ~Independence(p, q, c) THEN "C13:Independence"
         ELSE ""
       mq    == Apply(ToModel(p), c)
-      drift == IF ~inC THEN 0
+      (* the model is only run from worlds on which it is defined *)
+      drift == IF ~inC \/ msg # "" \/ InvC14(p) # "" \/ InvC13(p) # "" THEN 0
                ELSE IF mq.err # "" \/ mq.ret # ret THEN 1
                ELSE IF View(Complete(mq)) # View(q) THEN 1 ELSE 0
   IN [msg |-> msg, drift |-> drift, skipped |-> ~inC]
 
-TInit == l = 1 /\ nbad = 0 /\ ndrift = 0 /\ nchk = 0
+(* tainted: lines whose world descends from a rejected step; they are not   *)
+(* judged again (one report per broken history, and no relation is ever    *)
+(* evaluated from a pre world that is already known to be broken)          *)
+TInit == l = 1 /\ nbad = 0 /\ ndrift = 0 /\ nchk = 0 /\ tainted = {}
 
 TNext ==
   /\ l <= Len(Tr)
   /\ l' = l + 1
   /\ LET ln == Tr[l] IN
-     IF ln.e = "call" /\ ln.chk
+     IF ln.e = "call" /\ ln.pl \in tainted
+     THEN tainted' = tainted \cup {l} /\ UNCHANGED <<nbad, ndrift, nchk>>
+     ELSE IF ln.e = "call" /\ ln.chk
      THEN LET r == LineCheck(l) IN
           /\ nbad' = nbad + (IF r.msg = "" THEN 0
                              ELSE IF PrintT(<<"VXBAD", l, ln.x, ln.sid, r.msg>>) THEN 1 ELSE 1)
           /\ ndrift' = ndrift + (IF r.drift = 0 THEN 0
                              ELSE IF ndrift < 5 /\ PrintT(<<"VXDRIFT", l, ln.x, ln.sid, ln.c.op>>) THEN 1 ELSE 1)
           /\ nchk' = nchk + (IF r.skipped THEN 0 ELSE 1)
-     ELSE UNCHANGED <<nbad, ndrift, nchk>>
+          /\ tainted' = IF r.msg = "" THEN tainted ELSE tainted \cup {l}
+     ELSE UNCHANGED <<nbad, ndrift, nchk, tainted>>
 
 TSpec == TInit /\ [][TNext]_tvars
 
